@@ -225,6 +225,36 @@ def match_known(kf, v):
     return None
 
 
+def generic_downgrade(ctx, coq, disagreements, kf):
+    """Downgrade rule of DESIGN 2.2, for the generated files a check declares in `ctx.downgradable` (those whose content is
+    ALSO exercised by the check's correspondence and oracles - tie 2): when the only thing wrong with the proof stage is that
+    such translators no longer recognise the source (a restructuring outside their idiom), the development still builds on the
+    committed last-good copies, every theorem still checks, the extraction works, this run's correspondence shows no
+    disagreement, no oracle reports an unlisted violation and cases were evaluated, then the property is shown through tie 2
+    (hand-written model + correspondence), the downgrade is recorded in the evidence and the check passes.
+    VERIF_DOWNGRADE=none switches the rule off, =all applies it to every generated file (experiments only)."""
+    if coq is None or coq.get("ok"):
+        return coq
+    mode = os.environ.get("VERIF_DOWNGRADE", "")
+    if mode == "none":
+        return coq
+    failed = [g for g, s in coq.get("gen", {}).items() if s.startswith("failed")]
+    allowed = set(getattr(ctx, "downgradable", ()) or ())
+    if not failed or not (mode == "all" or all(g in allowed for g in failed)):
+        return coq
+    pr = coq.get("props", {})
+    clean = coq.get("make_ok") and pr.get("ok", not pr.get("error")) and not pr.get("error") and not pr.get("bad_axioms") \
+        and not coq.get("forbidden") and coq.get("extract_ok")
+    unlisted = [v for v in ctx.violations if match_known(kf, v) is None]
+    if not clean or disagreements or unlisted or ctx.evaluations <= 0:
+        return coq
+    for g in failed:
+        ctx.extra.setdefault("translators", {})[g] = "downgraded-to-correspondence (" + coq["gen"][g][:200] + ")"
+        ctx.notes.append("%s: translator failed; the theorems check on the last-good generated file and the hand-written model agrees "
+                         "with the implementation on every case of this run (no disagreement, every oracle holds): downgraded to tie 2" % g)
+    return dict(coq, ok=True)
+
+
 def conclude(ctx, coq, disagreements, corr_sig=None):
     """Decision rule (DESIGN 2.4) once the oracles have run: a broken obligation or a
     correspondence disagreement for which no failing input was found is still a violation."""
@@ -232,6 +262,7 @@ def conclude(ctx, coq, disagreements, corr_sig=None):
     # a failing input that is a listed open finding does not explain a broken proof/translator/
     # correspondence: only unlisted oracle violations count as "a failing input was found"
     have_oracle = any(v["kind"] == "impl-oracle" and match_known(kf, v) is None for v in ctx.violations)
+    coq = generic_downgrade(ctx, coq, disagreements, kf)
     if coq is not None and not coq["ok"]:
         pr = coq["props"]
         what = []
